@@ -23,7 +23,13 @@ func (rl *ReconciledLoader) IngestResponse(md graphsync.LinkMetadata, traceLink 
 		if action == graphsync.LinkActionPresent {
 			if _, isDuplicate := duplicates[link]; !isDuplicate {
 				duplicates[link] = struct{}{}
-				newItem.block = blocks[link]
+				if block, ok := blocks[link]; ok {
+					if block == nil {
+						// a zero-length block was sent: keep it distinguishable from "no block data"
+						block = []byte{}
+					}
+					newItem.block = block
+				}
 			}
 		}
 		newItem.traceLink = traceLink
